@@ -71,7 +71,10 @@ NoRes == R("", 0, "")
 Ok == R("ok", 0, "")
 Err == R("err", 0, "")
 
-SigNum(sig) == IF sig = "KILL" THEN 9 ELSE IF sig = "TERM" THEN 15 ELSE 0    \* "USR1": not in session.go's table
+\* signal numbers behind "128 + n" (session.go `signals`; USR1 / USR2 and unknown names have none: status 128)
+SigTable == [ABRT |-> 6, ALRM |-> 14, FPE |-> 8, HUP |-> 1, ILL |-> 4, INT |-> 2, KILL |-> 9, PIPE |-> 13, QUIT |-> 3,
+             SEGV |-> 11, TERM |-> 15]
+SigNum(sig) == IF sig \in DOMAIN SigTable THEN SigTable[sig] ELSE 0
 
 Init0(c) ==
   [cfg |-> c, started |-> FALSE, inpipe |-> FALSE, outpipe |-> FALSE, errpipe |-> FALSE,
